@@ -5,6 +5,7 @@ import (
 	"fmt"
 	"sort"
 	"strings"
+	"sync/atomic"
 )
 
 // HashKey is the structure used for hash-keys
@@ -47,11 +48,32 @@ type Hash struct {
 
 	// offset holds our iteration-offset.
 	offset int
+
+	// depth is how deeply containers are nested in this hash,
+	// counting the hash itself, once that is known (0 = not yet).
+	depth int32
 }
 
 // Type returns the type of this object.
 func (h *Hash) Type() Type {
 	return HASH
+}
+
+// Depth returns how deeply containers are nested in this hash, counting
+// the hash itself.  The entries of a hash never change, so the answer is
+// worked out once.
+func (h *Hash) Depth() int {
+	if d := atomic.LoadInt32(&h.depth); d != 0 {
+		return int(d)
+	}
+	d := 0
+	for _, p := range h.Pairs {
+		if c := Depth(p.Value); c > d {
+			d = c
+		}
+	}
+	atomic.StoreInt32(&h.depth, int32(d+1))
+	return d + 1
 }
 
 // Entries returns the sorted list of entries we maintain
